@@ -28,9 +28,10 @@ OPTIMIZERS = ('SLSQP', 'COBYLA', 'trust-constr')
 # less sharp even at tol=1e-10: measured with scipy alone on these QPs, COBYLA ends up to 4e-4 and trust-constr (barrier
 # method with a BFGS Hessian, stops after ~15 evaluations) up to 1.1e-3 away from x* when a target lies on a bound.
 # A wrong, missing or mirrored bound moves the answer by >= 1e-1 in this scenario set, so these tolerances still decide.
-TOLS = {'SLSQP': {'feas': 1e-6, 'opt': 1e-4, 'same': 1e-6},
-        'COBYLA': {'feas': 1e-4, 'opt': 2e-3, 'same': 1e-4},
-        'trust-constr': {'feas': 1e-6, 'opt': 5e-3, 'same': 1e-6}}
+# same: the model's design must BE the returned vector (only the round-off of the unscaling is allowed).
+TOLS = {'SLSQP': {'feas': 1e-6, 'opt': 1e-4, 'same': 1e-9},
+        'COBYLA': {'feas': 1e-4, 'opt': 5e-3, 'same': 1e-9},
+        'trust-constr': {'feas': 1e-6, 'opt': 5e-3, 'same': 1e-9}}
 MAXITER = {'SLSQP': 300, 'COBYLA': 3000, 'trust-constr': 400}
 X0 = (0.7, -0.3, 1.1)
 
@@ -38,6 +39,7 @@ F_ARRAY = 'C21-array-bounds-first-element-decides-two-sided'
 F_NEG = 'C21-negative-constraint-scaler-bounds-not-exchanged'
 F_TC = 'C21-trust-constr-constraint-callbacks'
 F_TCLIN = 'C21-trust-constr-linear-constraint-offset'
+F_MOVED = 'C21-model-not-left-at-returned-design'
 
 
 def fr(x):
@@ -151,6 +153,14 @@ def run_case(s, sc, opt, lin, v=None):
     if p is None:
         return {'status': 'skip'}
     try:
+        p.final_setup()         # the driver fills its `supports` table here
+    except Exception as e:
+        return {'status': 'error', 'where': 'final_setup', 'err': '%s: %s' % (type(e).__name__, str(e)[:200])}
+    if s['kind'] == 'eq' and not p.driver.supports['equality_constraints']:
+        # the driver declares equality constraints unsupported for this optimizer (COBYLA); scipy's COBYLA accepts them
+        # but stalls on them (false success with every callback value right), so this combination is not judged
+        return {'status': 'unsupported'}
+    try:
         with contextlib.redirect_stdout(io.StringIO()):
             result = p.run_driver()
     except Exception as e:
@@ -167,7 +177,7 @@ def run_case(s, sc, opt, lin, v=None):
         # non-optimal COBYLA answer is judged after one restart of the driver from the design it reported.
         clause, info = judge(s, v, opt, o)
         if clause and info['not_opt'] and not (info['bad_lower'] or info['bad_upper'] or info['bad_eq'] or
-                                                info['moved'] or info['stale_y']):
+                                                info['stale_y']):
             try:
                 with contextlib.redirect_stdout(io.StringIO()):
                     result = p.run_driver()
@@ -222,13 +232,13 @@ def judge(s, v, opt, o):
                 info['bad_upper'].append(i)
     if max(abs(a - b) for a, b in zip(o['x'], xstar)) > tol['opt']:
         info['not_opt'] = True
-    if info['moved'] or info['stale_y']:
-        return 'success reported but the model is not left at the design the optimizer returned', info
     if info['bad_lower'] or info['bad_upper'] or info['bad_eq']:
         return ('success reported with y elements violating lower %s / upper %s / equals %s' %
                 (info['bad_lower'], info['bad_upper'], info['bad_eq'])), info
     if info['not_opt']:
         return 'success reported but the design is not the optimum x*', info
+    if info['moved'] or info['stale_y']:
+        return 'success reported but the model is not left at the design the optimizer returned', info
     return None, info
 
 
@@ -279,36 +289,45 @@ def pred_array(scn, info):
         # every later element gets the second constraint as well: for a one-sided element it repeats its upper bound (or
         # is 1e30 - y); the redundant row makes scipy's COBYLA stop early at a feasible non-optimal point
         return scn['optimizer'] == 'COBYLA' and any(not _two_sided(q) and q != [NOB, NOB] for q in b[1:]) and \
-            bool(info.get('not_opt')) and not (info.get('bad_lower') or info.get('bad_upper') or info.get('moved'))
+            bool(info.get('not_opt')) and not (info.get('bad_lower') or info.get('bad_upper'))
     dropped = [s['idx'][k] - 1 for k in range(1, len(b)) if _two_sided(b[k])]      # y positions whose upper is dropped
     bad = info.get('bad_upper') or []
-    return bool(dropped) and bool(bad) and set(bad) <= set(dropped) and not info.get('bad_lower') \
-        and not info.get('moved')
+    return bool(dropped) and bool(bad) and set(bad) <= set(dropped) and not info.get('bad_lower')
 
 
 def pred_neg(scn, info):
     """Autoscaler._compute_scaled_bounds: with a negative total scaler the image of `lower` is kept as the lower bound
     (and `upper` as the upper), so the optimizer enforces the mirrored constraint."""
     s = scn['s']
-    return s['kind'] == 'ineq' and fr(scn['sc']['c']['s']) < 0 and any(b != [NOB, NOB] for b in s['b']) \
-        and not info.get('moved')
+    return s['kind'] == 'ineq' and fr(scn['sc']['c']['s']) < 0 and any(b != [NOB, NOB] for b in s['b']) and \
+        bool(info.get('bad_lower') or info.get('bad_upper') or info.get('not_opt'))
 
 
 def pred_tc(scn, info):
     """trust-constr (new-style constraints): only the last element's NonlinearConstraint is appended, _con_val_func
     returns the values cached at the previous design (and _gradfunc the gradient of the previous design), _congradfunc
-    negates upper-only rows.  The erratic last steps this causes also leave the model a few 1e-6 off the returned x."""
-    return scn['optimizer'] == 'trust-constr' and not scn['linear']
+    negates upper-only rows."""
+    return scn['optimizer'] == 'trust-constr' and not scn['linear'] and _wrong(info)
 
 
 def pred_tclin(scn, info):
     """trust-constr, linear=True: LinearConstraint(A, lb, ub) is given the bounds of the affine constraint A z + g0
     without subtracting g0 (g0 != 0 as soon as the constraint or the design variable has an adder / ref0), only one row
     of the Jacobian is passed, and the objective gradient is the one of the previous design."""
-    return scn['optimizer'] == 'trust-constr' and scn['linear']
+    return scn['optimizer'] == 'trust-constr' and scn['linear'] and _wrong(info)
 
 
-PREDICATES = {F_ARRAY: pred_array, F_NEG: pred_neg, F_TC: pred_tc, F_TCLIN: pred_tclin}
+def _wrong(info):
+    return bool(info.get('bad_lower') or info.get('bad_upper') or info.get('bad_eq') or info.get('not_opt'))
+
+
+def pred_moved(scn, info):
+    """ScipyOptimizeDriver.run never writes result.x back: the model stays at the optimizer's last evaluation, which for
+    COBYLA and trust-constr is usually another (trial) point.  Only runs that are otherwise right are attributed here."""
+    return bool(info.get('moved')) and not info.get('stale_y') and not _wrong(info)
+
+
+PREDICATES = {F_ARRAY: pred_array, F_NEG: pred_neg, F_TC: pred_tc, F_TCLIN: pred_tclin, F_MOVED: pred_moved}
 
 
 # ---- selection of the runs ------------------------------------------------------------------------------
@@ -325,7 +344,7 @@ def plan(ctx, scens, scalings, quick):
     ident = [k for k, sc in enumerate(scalings) if _is_identity(sc)][0]
     others = [k for k in range(len(scalings)) if k != ident]
     if quick:
-        chosen = core + rest[:260]
+        chosen = core + rest[:200]
         nsc = 2
     elif n == 2:
         chosen = core + rest[:300]
@@ -449,8 +468,6 @@ def execute(ctx, scens, scalings, runs):
         if not clause:
             for w in ('same', 'feas', 'opt'):
                 worst[(opt, w)] = max(worst[(opt, w)], info['d_' + w])
-            if info['d_same'] > 0:
-                cnt[(opt, 'model_not_bitwise_at_returned_x')] += 1
         expected = {'x_star': [float(fr(a)) for a in v['x']], 'y_bounds': v['yb']}
         if clause:
             cnt[(opt, 'violating')] += 1
